@@ -175,6 +175,9 @@ struct Gen<'r> {
     uid: usize,
     enums: BTreeMap<String, EnumM>,
     docn: usize,
+    /// declarations for builds without the help feature: `help`, `-h` and `--help` are ordinary names there,
+    /// so commands and options may be called that
+    help_names: bool,
 }
 
 impl Gen<'_> {
@@ -247,7 +250,7 @@ impl Gen<'_> {
                 if tries > 50 {
                     break (format!("{}X{}", ident, self.uid), format!("{}-x{}", name, self.uid));
                 }
-                if used_ident.contains(&ident) || used_name.contains(&name) || name == "help" || (depth == 0 && taken_names.contains(&name)) {
+                if used_ident.contains(&ident) || used_name.contains(&name) || (name == "help" && !self.help_names) || (depth == 0 && taken_names.contains(&name)) {
                     continue;
                 }
                 break (ident, name);
@@ -263,6 +266,10 @@ impl Gen<'_> {
                     name = cand;
                     explicit = true;
                 }
+            }
+            if self.help_names && self.r.chance(12) && !used_name.contains(&"help".to_string()) && !(depth == 0 && taken_names.contains(&"help".to_string())) {
+                name = "help".to_string();
+                explicit = true;
             }
             used_ident.push(ident.clone());
             used_name.push(name.clone());
@@ -295,8 +302,8 @@ impl Gen<'_> {
             } else {
                 let nf = self.r.range(0, 6);
                 let mut fnames: Vec<String> = Vec::new();
-                let mut shorts: Vec<char> = vec!['h'];
-                let mut longs: Vec<String> = vec!["help".to_string()];
+                let mut shorts: Vec<char> = if self.help_names { vec![] } else { vec!['h'] };
+                let mut longs: Vec<String> = if self.help_names { vec![] } else { vec!["help".to_string()] };
                 let mut vnames: Vec<String> = Vec::new();
                 for _ in 0..nf {
                     let k = self.r.range(1, 2);
@@ -336,6 +343,10 @@ impl Gen<'_> {
                             } else {
                                 s = Some(self.r.pick(&['Ю', 'z', '9', 'ж', 'X', '値', 'q']));
                             }
+                            if self.help_names && self.r.chance(35) {
+                                s = Some('h');
+                                sg = false;
+                            }
                             if shorts.contains(&s.unwrap()) {
                                 s = None;
                                 sg = false;
@@ -347,6 +358,10 @@ impl Gen<'_> {
                                 lg = true;
                             } else {
                                 l = Some(format!("{}{}", self.r.pick(&["конф", "long-x", "o", "值", "maxLevel", "log_file", "Xy", "очень-длинное-имя"]), longs.len()));
+                            }
+                            if self.help_names && self.r.chance(30) {
+                                l = Some("help".to_string());
+                                lg = false;
                             }
                             if longs.contains(l.as_ref().unwrap()) {
                                 l = None;
@@ -439,11 +454,17 @@ fn needs_lt(id: &str, enums: &BTreeMap<String, EnumM>) -> bool {
 }
 
 pub fn generate(id: usize, r: &mut R) -> Decl {
+    generate_opts(id, r, false)
+}
+
+/// `help_names`: for builds without the help feature (see `Gen::help_names`)
+pub fn generate_opts(id: usize, r: &mut R, help_names: bool) -> Decl {
     let mut g = Gen {
         r,
         uid: 0,
         enums: BTreeMap::new(),
         docn: 0,
+        help_names,
     };
     let grouped = g.r.chance(40);
     let nroots = if grouped { g.r.range(2, 4) } else { 1 };
